@@ -558,9 +558,19 @@ type pcOp struct {
 	checked    bool
 	willCancel bool
 	published  bool
+	// midRead: the read was held at the scheduling point inside List; later
+	// holds the model states that completed while it was there
+	midRead bool
+	later   []pcSnap
+}
+
+type pcSnap struct {
+	snap map[string]*mEntry
+	uns  map[string]bool
 }
 
 type pcDriver struct {
+	midReads      bool
 	r             *simkit.Run
 	names         *simkit.Namer
 	pc            *pcache.ProviderCache
@@ -756,6 +766,9 @@ func pcSetup(r *simkit.Run, nsrc int, ttl, refreshIn time.Duration, preload bool
 func pcSetupMode(r *simkit.Run, nsrc int, ttl, refreshIn time.Duration, preload, overHTTP bool, initial func(d *pcDriver)) *pcDriver {
 	d := &pcDriver{r: r, names: simkit.NewNamer(), ttl: ttl, refreshIn: refreshIn, allVers: map[int]*recVer{}, errKinds: 5}
 	r.InstallHooks(d.names)
+	// the point inside List is a scheduling point only where the driver
+	// turns it on (drive, cooperative runs)
+	r.SkipPoint = func(site, who string) bool { return site == "pcache.read" && !d.midReads }
 	for i := 1; i <= 6; i++ {
 		id := Identity(fmt.Sprintf("V%d", i))
 		d.names.Set(string(id.ID), id.Name)
@@ -842,6 +855,47 @@ func (d *pcDriver) describeResult(op *pcOp) string {
 	return "[" + strings.Join(vs, " ") + "]"
 }
 
+// listAgainst compares a listing with one model state: the first mismatch
+// (oracle, message), or "" and the monotonicity bookkeeping to run.
+func (d *pcDriver) listAgainst(op *pcOp, got map[string]int, c pcSnap) (string, string, []func()) {
+	o := d.mode
+	var mono []func()
+	var names []string
+	for n := range c.snap {
+		names = append(names, n)
+	}
+	sort.Strings(names)
+	for _, n := range names {
+		e := c.snap[n]
+		if c.uns[n] {
+			continue
+		}
+		ver, ok := got[n]
+		switch {
+		case e.neg && ok:
+			return o + ".list", fmt.Sprintf("List shows %s although it is known absent", n), nil
+		case !e.neg && !ok:
+			return o + ".missing", fmt.Sprintf("List (reader %s) does not show %s, which every completed update up to now contains (acceptable records: %s)", op.task, n, e.describe()), nil
+		case !e.neg && !e.accepts(ver):
+			return o + ".stale", fmt.Sprintf("List shows %s.v%d, want the freshest record shown to the cache: %s", n, ver, e.describe()), nil
+		case !e.neg:
+			n, ver, gen := n, ver, e.gen
+			mono = append(mono, func() { d.monotone(op.task, n, d.allVers[ver], o, gen) })
+		}
+	}
+	var gn []string
+	for n := range got {
+		gn = append(gn, n)
+	}
+	sort.Strings(gn)
+	for _, n := range gn {
+		if _, ok := c.snap[n]; !ok && !c.uns[n] {
+			return o + ".list", fmt.Sprintf("List shows %s.v%d which the cache should not hold (expired or never reported)", n, got[n]), nil
+		}
+	}
+	return "", "", mono
+}
+
 // verify checks a completed op against the model.
 func (d *pcDriver) verify(op *pcOp) {
 	r, o := d.r, d.mode
@@ -860,27 +914,27 @@ func (d *pcDriver) verify(op *pcOp) {
 			}
 			got[n] = pi.Lag
 		}
-		for n, e := range op.snap {
-			if op.snapUns[n] {
-				continue
+		cands := append([]pcSnap{{op.snap, op.snapUns}}, op.later...)
+		firstOracle, firstMsg := "", ""
+		for ci, c := range cands {
+			oracle, msg, mono := d.listAgainst(op, got, c)
+			if msg == "" {
+				if ci > 0 {
+					r.Probe("held-listing-shows-a-later-completed-state")
+				}
+				for _, m := range mono {
+					m()
+				}
+				return
 			}
-			ver, ok := got[n]
-			switch {
-			case e.neg && ok:
-				r.Violate(o+".list", "List shows %s although it is known absent", n)
-			case !e.neg && !ok:
-				r.Violate(o+".missing", "List (reader %s) does not show %s, which every completed update up to now contains (acceptable records: %s)", op.task, n, e.describe())
-			case !e.neg && !e.accepts(ver):
-				r.Violate(o+".stale", "List shows %s.v%d, want the freshest record shown to the cache: %s", n, ver, e.describe())
-			case !e.neg:
-				d.monotone(op.task, n, d.allVers[ver], o, e.gen)
-			}
-		}
-		for n, ver := range got {
-			if _, ok := op.snap[n]; !ok && !op.snapUns[n] {
-				r.Violate(o+".list", "List shows %s.v%d which the cache should not hold (expired or never reported)", n, ver)
+			if ci == 0 {
+				firstOracle, firstMsg = oracle, msg
 			}
 		}
+		if len(cands) > 1 {
+			firstMsg += fmt.Sprintf(" [the listing was held between the two maps it reads; it matches none of the %d states that completed meanwhile either]", len(cands)-1)
+		}
+		r.Violate(firstOracle, "%s", firstMsg)
 	case pcGet:
 		if op.snapUns[op.prov] {
 			return
@@ -1050,6 +1104,9 @@ type pcTask struct {
 // drive runs the event loop.
 func (d *pcDriver) drive(tasks []*pcTask, maxSteps int, allowClockInFlight bool) {
 	r, tp := d.r, d.r.Tape
+	// in half of the runs a listing can be held between the two maps it
+	// reads, while updates complete
+	d.midReads = tp.Chance(1, 2, "midReads")
 	next := map[string]*pcOp{}
 	for _, t := range tasks {
 		t := t
@@ -1116,6 +1173,10 @@ func (d *pcDriver) drive(tasks []*pcTask, maxSteps int, allowClockInFlight bool)
 			a := d.net.RequestAction(p)
 			a.Weight = 3
 			return a
+		}
+		if p.Site == "pcache.read" {
+			// a listing held between the two maps it reads
+			return &simkit.Action{Name: "resume listing of " + r.TaskOf(p.GID), Weight: 2, Do: func() { r.Release(p, nil) }}
 		}
 		if p.Site == "op" {
 			t := byName[p.Who]
@@ -1195,7 +1256,7 @@ func (d *pcDriver) drive(tasks []*pcTask, maxSteps int, allowClockInFlight bool)
 			if !o.started || o.done || o.checked {
 				continue
 			}
-			if o.kind == pcList {
+			if o.kind == pcList && !o.midRead {
 				r.Violate(d.mode+".blocked", "List by %s did not return in the step it was called in (an update is in progress)", o.task)
 				o.checked = true
 			}
@@ -1206,7 +1267,28 @@ func (d *pcDriver) drive(tasks []*pcTask, maxSteps int, allowClockInFlight bool)
 		}
 	}
 	invariant := func() {
+		for _, q := range r.AllParked() {
+			if q.Site != "pcache.read" {
+				continue
+			}
+			if t := byName[r.TaskOf(q.GID)]; t != nil && t.cur != nil && !t.cur.midRead {
+				t.cur.midRead = true
+				r.Probe("listing-held-between-its-two-maps")
+			}
+		}
 		readBlocked()
+		for _, o := range d.ops {
+			if o.midRead && !o.done {
+				// states that completed while the listing was held: it may
+				// show any one of them (the statement says "as of some
+				// completed update")
+				uns := map[string]bool{}
+				for k := range d.m.unsure {
+					uns[k] = true
+				}
+				o.later = append(o.later, pcSnap{d.snapshotModel(), uns})
+			}
+		}
 		for _, o := range d.ops {
 			if o.done && !o.checked {
 				d.verify(o)
